@@ -307,8 +307,9 @@ def check_queries(tree, imports, subj, obj, ev) -> dict:
 def exh_shard(arg, st, deadline) -> None:
     tkey, shard, nshards, max_edges, root_target, max_s, max_o = arg[:7]
     related = len(arg) > 7 and arg[7]
+    grand = len(arg) > 8 and arg[8]  # imports from a module to a descendant two or more levels below it are candidates too
     tree = RS.TREES[tkey]
-    cand = M.candidate_edges(tree, allow_root_target=root_target, root=tree[0])
+    cand = M.candidate_edges(tree, allow_root_target=root_target, root=tree[0], grand=grand)
     if related:  # some subject is the same module as / above / below some object
         rules = RS.enum_related_rules(tree, max_s, max_o)
         so = sorted({(r["subj"]["kind"], tuple(r["subj"]["names"]), r["obj"]["kind"], tuple(r["obj"]["names"])) for r in rules})
